@@ -379,6 +379,13 @@ func (s *configurationStore) Watch(ctx context.Context, ch chan<- configapi.Conf
 	s.mu.Unlock()
 
 	go func() {
+		// Whatever way this goroutine ends, keep draining the events the store may still be sending to it
+		defer func() {
+			go func() {
+				for range eventCh {
+				}
+			}()
+		}()
 		defer func() {
 			s.mu.Lock()
 			if options.configurationID.Target.ID != "" {
@@ -412,11 +419,17 @@ func (s *configurationStore) Watch(ctx context.Context, ch chan<- configapi.Conf
 					}
 					if err := s.populate(ctx, configuration); err != nil {
 						log.Error(err)
+						close(ch)
 						return
 					}
-					ch <- configapi.ConfigurationEvent{
+					select {
+					case ch <- configapi.ConfigurationEvent{
 						Type:          configapi.ConfigurationEvent_REPLAYED,
 						Configuration: *configuration,
+					}:
+					case <-ctx.Done():
+						close(ch)
+						return
 					}
 				}
 			} else {
@@ -443,11 +456,17 @@ func (s *configurationStore) Watch(ctx context.Context, ch chan<- configapi.Conf
 					configuration.Version = uint64(entry.Version)
 					if err := s.populate(ctx, configuration); err != nil {
 						log.Error(err)
+						close(ch)
 						return
 					}
-					ch <- configapi.ConfigurationEvent{
+					select {
+					case ch <- configapi.ConfigurationEvent{
 						Type:          configapi.ConfigurationEvent_REPLAYED,
 						Configuration: *configuration,
+					}:
+					case <-ctx.Done():
+						close(ch)
+						return
 					}
 				}
 			}
@@ -456,15 +475,17 @@ func (s *configurationStore) Watch(ctx context.Context, ch chan<- configapi.Conf
 		for {
 			select {
 			case event := <-eventCh:
-				ch <- event
+				// Do not block on a consumer that has gone away: that would stall the delivery of events
+				// to every other watcher of the store.
+				select {
+				case ch <- event:
+					continue
+				case <-ctx.Done():
+				}
 			case <-ctx.Done():
-				close(ch)
-				go func() {
-					for range eventCh {
-					}
-				}()
-				return
 			}
+			close(ch)
+			return
 		}
 	}()
 	return nil
